@@ -1315,8 +1315,268 @@ class Translator:
                     if isinstance(n, ast.Subscript) and isinstance(n.value, ast.Name) and n.value.id == kw and isinstance(n.slice, ast.Constant):
                         used.setdefault(n.slice.value, '%s.%s' % (c, st.name))
             missing = sorted(u for u in used if u not in covered and u not in KW_EXEMPT)
+            ext = self._transformer_ext(cname, classes, methods, k, kwname, elts[3:])
+            for u, site in ext.pop('ext_used'):
+                used.setdefault(u, site)
+            missing = sorted(u for u in used if u not in covered and u not in KW_EXEMPT)
             self.transformers.append(dict(cls=cname, file=fname, line=k.lineno, head_ok=(head == pos[:3] and len(head) == 3),
-                                          covered=sorted(covered), used={u: used[u] for u in sorted(used)}, missing=missing))
+                                          covered=sorted(covered), used={u: used[u] for u in sorted(used)}, missing=missing, **ext))
+
+    # -- extension: defaults of the options, instance state, shape of doit() -----------------
+    def _transformer_ext(self, cname, classes, methods, keyfn, kwname, key_elts):
+        WILD = '*'
+        dump = lambda n: ast.dump(n) if n is not None else ast.dump(ast.Constant(value=None))
+        key_defaults = {}
+        for e in key_elts:
+            key_defaults[e.args[0].value] = dump(e.args[1] if len(e.args) > 1 else None)
+        ms = []
+        seen = set()
+        for (c, f, st) in methods(cname):
+            if st.name in seen:
+                continue
+            seen.add(st.name)
+            ms.append((c, f, st))
+        mdict = {st.name: (c, f, st) for c, f, st in ms}
+        allfuncs = {}
+        for cn, (node, fn, bases) in classes.items():
+            for st in node.body:
+                if isinstance(st, ast.FunctionDef):
+                    allfuncs.setdefault(st.name, []).append(st)
+
+        def parents(fn):
+            par = {}
+            for n in ast.walk(fn):
+                for ch in ast.iter_child_nodes(n):
+                    par[ch] = n
+            return par
+
+        def bool_ctx(node, par):
+            p = par.get(node)
+            while isinstance(p, (ast.BoolOp,)) or (isinstance(p, ast.UnaryOp) and isinstance(p.op, ast.Not)):
+                node, p = p, par.get(p)
+            return isinstance(p, (ast.If, ast.IfExp, ast.While)) and p.test is node
+
+        def param_bool_only(fn, pname):
+            par = parents(fn)
+            uses = [n for n in ast.walk(fn) if isinstance(n, ast.Name) and n.id == pname]
+            return bool(uses) and all(isinstance(n.ctx, ast.Load) and bool_ctx(n, par) for n in uses)
+
+        uses = []       # (option, default dump or WILD, site, truthiness-only)
+        for (c, f, st) in ms:
+            if st.name in ('key', 'dummy_var'):
+                continue
+            kw = st.args.kwarg.arg if st.args.kwarg else None
+            par = parents(st)
+            for n in ast.walk(st):
+                if kw and isinstance(n, ast.Call) and isinstance(n.func, ast.Attribute) and n.func.attr in ('get', 'pop') \
+                        and isinstance(n.func.value, ast.Name) and n.func.value.id == kw and n.args and isinstance(n.args[0], ast.Constant):
+                    d = dump(n.args[1] if len(n.args) > 1 else None) if (n.func.attr == 'get' or len(n.args) > 1) else WILD
+                    tonly = bool_ctx(n, par)
+                    pp = par.get(n)
+                    if not tonly and isinstance(pp, ast.Call) and n in pp.args and isinstance(pp.func, ast.Attribute) and not any(isinstance(a, ast.Starred) for a in pp.args):
+                        cands = allfuncs.get(pp.func.attr, [])
+                        if len(cands) == 1:
+                            ps = [a.arg for a in cands[0].args.args][1:]
+                            i = pp.args.index(n)
+                            tonly = i < len(ps) and param_bool_only(cands[0], ps[i])
+                    uses.append((n.args[0].value, d, '%s.%s:%d' % (c, st.name, n.lineno), tonly))
+                if kw and isinstance(n, ast.Subscript) and isinstance(n.value, ast.Name) and n.value.id == kw and isinstance(n.slice, ast.Constant):
+                    uses.append((n.slice.value, WILD, '%s.%s:%d' % (c, st.name, n.lineno), False))
+                # named parameters bound through a **kwargs splat
+                if isinstance(n, ast.Call) and isinstance(n.func, ast.Attribute) and any(k2.arg is None for k2 in n.keywords):
+                    recv = n.func.value
+                    is_self = isinstance(recv, ast.Name) and recv.id == 'self'
+                    is_super = isinstance(recv, ast.Call) and isinstance(recv.func, ast.Name) and recv.func.id == 'super'
+                    if not (is_self or is_super):
+                        if isinstance(recv, ast.Name) and recv.id in ('kwargs', 'assumptions'):
+                            continue
+                        # a foreign callee receives the options: only the names it is documented to take could be judged
+                        callee = n.func.attr
+                        raise Untranslatable('%s:%d: %s.%s passes **options to foreign callee %s' % (f, n.lineno, c, st.name, callee))
+                    if is_super:
+                        own = classes[c][2]
+                        tgt = None
+                        for b in own:
+                            for (c2, f2, st2) in methods(b):
+                                if st2.name == n.func.attr:
+                                    tgt = st2
+                                    break
+                            if tgt:
+                                break
+                    else:
+                        tgt = mdict.get(n.func.attr, (None, None, None))[2]
+                    if tgt is None:
+                        raise Untranslatable('%s:%d: cannot resolve %s called with **options' % (f, n.lineno, n.func.attr))
+                    ps = tgt.args.args[1:]
+                    nd = len(tgt.args.defaults)
+                    defaults = [None] * (len(ps) - nd) + list(tgt.args.defaults)
+                    given = {k2.arg for k2 in n.keywords if k2.arg}
+                    npos = len(ps) if any(isinstance(a, ast.Starred) for a in n.args) else len(n.args)
+                    for i, a in enumerate(ps):
+                        if i < npos or a.arg in given:
+                            continue
+                        if tgt.name == 'doit' and a.arg == 'cache':
+                            continue        # modelled: the look-up guard of doit()
+                        if not param_used(tgt, a.arg):
+                            continue
+                        d = dump(defaults[i]) if defaults[i] is not None else WILD
+                        uses.append((a.arg, d, '%s.%s(%s)' % (c, tgt.name, a.arg), param_bool_only(tgt, a.arg)))
+                    for a, dflt in zip(tgt.args.kwonlyargs, tgt.args.kw_defaults):
+                        if a.arg not in given and param_used(tgt, a.arg):
+                            uses.append((a.arg, dump(dflt) if dflt is not None else WILD, '%s.%s(%s)' % (c, tgt.name, a.arg), False))
+        FALSY = {ast.dump(ast.Constant(value=None)), ast.dump(ast.Constant(value=False))}
+        mism = []
+        pairs = []
+        for (u, d, site, tonly) in uses:
+            if u in KW_EXEMPT or u not in key_defaults:
+                continue            # options missing from key() are reported by tkey_<cls>
+            kd = key_defaults[u]
+            if d == WILD or d == kd or (tonly and d in FALSY and kd in FALSY):
+                pairs.append((u, kd))
+            else:
+                pairs.append((u, d))
+                mism.append(dict(opt=u, key_default=kd, use_default=d, site=site))
+        # instance state: attributes read by the computation must be (re)assigned by check() on every call
+        consts, mnames = set(), set(mdict)
+        for (c, f, st) in ms:
+            pass
+        seenc = set()
+        def cls_consts(cn):
+            if cn in seenc or cn not in classes:
+                return
+            seenc.add(cn)
+            for st in classes[cn][0].body:
+                if isinstance(st, ast.Assign):
+                    for tg in st.targets:
+                        if isinstance(tg, ast.Name):
+                            consts.add(tg.id)
+            for b in classes[cn][2]:
+                cls_consts(b)
+        cls_consts(cname)
+        WRITERS = {'__init__', 'clear_cache', 'transform', 'check'}
+        written, check_written, state_bad = {}, set(), []
+        for (c, f, st) in ms:
+            for n in ast.walk(st):
+                if isinstance(n, ast.Attribute) and isinstance(n.value, ast.Name) and n.value.id == 'self' and isinstance(n.ctx, (ast.Store, ast.Del)):
+                    written.setdefault(n.attr, set()).add(st.name)
+                    if st.name not in WRITERS:
+                        state_bad.append('%s.%s writes self.%s' % (c, st.name, n.attr))
+                    if st.name == 'check':
+                        check_written.add(n.attr)
+        # check() of a base class reached through super()
+        for (c, f, st) in methods(cname):
+            if st.name == 'check':
+                for n in ast.walk(st):
+                    if isinstance(n, ast.Attribute) and isinstance(n.value, ast.Name) and n.value.id == 'self' and isinstance(n.ctx, ast.Store):
+                        check_written.add(n.attr)
+        reads = set()
+        for (c, f, st) in ms:
+            if st.name in ('error', 'debug', '__init__', 'clear_cache'):
+                continue
+            for n in ast.walk(st):
+                if isinstance(n, ast.Attribute) and isinstance(n.value, ast.Name) and n.value.id == 'self' and isinstance(n.ctx, ast.Load):
+                    if n.attr in mnames or n.attr in consts or n.attr in ('cache', 'expr', '_debug'):
+                        continue
+                    reads.add(n.attr)
+                    if n.attr not in check_written:
+                        state_bad.append('%s.%s reads self.%s which check() does not assign' % (c, st.name, n.attr))
+        # doit(): owner in the MRO and its shape
+        downer = mdict['doit'][0] if 'doit' in mdict else None
+        if downer is None:
+            raise Untranslatable('%s has no doit()' % cname)
+        shape = doit_shape(mdict['doit'][2], mdict['doit'][1])
+        return dict(ext_used=[(u, site) for (u, d, site, tonly) in uses], key_defaults=key_defaults, opt_pairs=sorted(set(pairs)), default_mismatch=mism, state_reads=sorted(reads),
+                    state_bad=sorted(set(state_bad)), doit_owner=downer, doit_bypass=shape['bypass'], doit_flag=shape['flag'])
+
+
+def param_used(fn, name):
+    return any(isinstance(n, ast.Name) and n.id == name and isinstance(n.ctx, ast.Load) for n in ast.walk(fn))
+
+
+def doit_shape(fn, fname):
+    """fail-closed structural translation of a doit() of lcapy/transformer.py into the two flags of
+    the Coq model `doit` (coq/props/C16xform.v): [pure preamble]; [if not evaluate: return noevaluate];
+    const, expr = factor_const; key = self.key(expr, var, conjvar, **kw); if [cache and] key in self.cache:
+    return POST(self.cache[key]); ...compute (no return)...; self.cache[key] = V; return POST(V)"""
+    def bad(msg, n=None):
+        raise Untranslatable('%s:%d: doit(): %s' % (fname, getattr(n, 'lineno', fn.lineno), msg))
+    ps = [a.arg for a in fn.args.args]
+    if len(ps) < 5 or ps[4] != 'evaluate' or fn.args.kwarg is None:
+        bad('unexpected signature')
+    kw = fn.args.kwarg.arg
+    body = [st for st in fn.body if not (isinstance(st, ast.Expr) and isinstance(st.value, ast.Constant))]
+    ikey = [i for i, st in enumerate(body) if isinstance(st, ast.Assign) and len(st.targets) == 1 and isinstance(st.targets[0], ast.Name)
+            and st.targets[0].id == 'key']
+    if len(ikey) != 1:
+        bad('expected exactly one `key = ...`')
+    ik = ikey[0]
+    kc = body[ik].value
+    if not (isinstance(kc, ast.Call) and isinstance(kc.func, ast.Attribute) and kc.func.attr == 'key' and isinstance(kc.func.value, ast.Name)
+            and kc.func.value.id == 'self' and [getattr(a, 'id', None) for a in kc.args] == ps[1:4]
+            and len(kc.keywords) == 1 and kc.keywords[0].arg is None and getattr(kc.keywords[0].value, 'id', None) == kw):
+        bad('key is not self.key(expr, var, conjvar, **kwargs)', body[ik])
+    bypass = False
+    for st in body[:ik]:
+        if isinstance(st, ast.FunctionDef):
+            continue
+        if any(isinstance(n, ast.Attribute) and n.attr == 'cache' for n in ast.walk(st)):
+            bad('cache touched before the key is computed', st)
+        rets = [n for n in ast.walk(st) if isinstance(n, ast.Return)]
+        if rets:
+            ok = isinstance(st, ast.If) and isinstance(st.test, ast.UnaryOp) and isinstance(st.test.op, ast.Not) and getattr(st.test.operand, 'id', None) == 'evaluate' \
+                and len(st.body) == 1 and isinstance(st.body[0], ast.Return) and not st.orelse \
+                and isinstance(st.body[0].value, ast.Call) and getattr(st.body[0].value.func, 'attr', None) == 'noevaluate'
+            if not ok:
+                bad('return before the look-up that is not the evaluate=False bypass', st)
+            bypass = True
+        elif any(isinstance(n, ast.Name) and n.id == 'evaluate' for n in ast.walk(st)):
+            bad('evaluate read outside the bypass', st)
+    if ik + 1 >= len(body) or not isinstance(body[ik + 1], ast.If):
+        bad('no look-up after the key')
+    lk = body[ik + 1]
+    isin = lambda t: isinstance(t, ast.Compare) and len(t.ops) == 1 and isinstance(t.ops[0], ast.In) and getattr(t.left, 'id', None) == 'key' \
+        and ast.dump(t.comparators[0]) == ast.dump(ast.parse('self.cache', mode='eval').body)
+    flag = False
+    if isin(lk.test):
+        pass
+    elif isinstance(lk.test, ast.BoolOp) and isinstance(lk.test.op, ast.And) and len(lk.test.values) == 2 and getattr(lk.test.values[0], 'id', None) == 'cache' \
+            and 'cache' in ps and isin(lk.test.values[1]):
+        flag = True
+    else:
+        bad('unexpected look-up test', lk)
+    if lk.orelse or len(lk.body) != 1 or not isinstance(lk.body[0], ast.Return):
+        bad('look-up must return at once', lk)
+    hit = lk.body[0].value
+    rest = body[ik + 2:]
+    if not rest or not isinstance(rest[-1], ast.Return):
+        bad('no final return')
+    stores = [i for i, st in enumerate(rest) if isinstance(st, ast.Assign) and len(st.targets) == 1 and isinstance(st.targets[0], ast.Subscript)
+              and ast.dump(st.targets[0].value) == ast.dump(ast.parse('self.cache', mode='eval').body) and getattr(st.targets[0].slice, 'id', None) == 'key']
+    if stores != [len(rest) - 2]:
+        bad('expected `self.cache[key] = V` right before the final return')
+    for st in rest[:-2]:
+        for n in ast.walk(st):
+            if isinstance(n, ast.Return) and not any(isinstance(m, ast.FunctionDef) and n in ast.walk(m) for m in fn.body if isinstance(m, ast.FunctionDef)):
+                bad('return between look-up and store', n)
+            if isinstance(n, ast.Name) and n.id in ('key', 'const', kw, 'evaluate') and isinstance(n.ctx, ast.Store):
+                bad('%s reassigned between look-up and store' % n.id, n)
+            if isinstance(n, ast.Name) and n.id == 'evaluate':
+                bad('evaluate read after the look-up', n)
+            if isinstance(n, ast.Attribute) and n.attr == 'cache' and isinstance(n.value, ast.Name) and n.value.id == 'self':
+                bad('cache touched between look-up and store', n)
+    V = rest[-2].value
+    slot = ast.dump(ast.parse('self.cache[key]', mode='eval').body)
+    TOKEN = '<<stored>>'
+    hit_s = ast.dump(hit).replace(slot, TOKEN)
+    miss_s = ast.dump(rest[-1].value).replace(slot, TOKEN)
+    vs = ast.dump(V)
+    if isinstance(V, ast.Tuple):
+        pass                # the miss path must read the slot it has just written
+    else:
+        miss_s = miss_s.replace(vs, TOKEN)
+    if hit_s != miss_s or TOKEN not in hit_s:
+        bad('the value returned on a hit is not the same function of the stored value as on a miss', rest[-1])
+    return dict(bypass=bypass, flag=flag)
 
 
 def has_event(p):
@@ -1709,4 +1969,5 @@ if __name__ == '__main__':
     print('callbacks', T.cb_order)
     for t in T.transformers:
         print('transformer', t['cls'], 'covered', t['covered'], 'used', t['used'], 'missing', t['missing'], 'head', t['head_ok'])
+        print('   ', 'pairs', t['opt_pairs'], 'mismatch', t['default_mismatch'], 'state', t['state_reads'], t['state_bad'], 'doit', t['doit_owner'], t['doit_bypass'], t['doit_flag'])
     print('nfuncs', len(T.order), 'total size', sum(size(simplify(p)) for _, _, p in T.all_progs()))
